@@ -315,6 +315,19 @@ func (tr *TemplateRecord) unmarshalOpts(r *reader.Reader) error {
 	return nil
 }
 
+// recordLen returns the number of octets a data record of this template occupies.
+func (tr *TemplateRecord) recordLen() int {
+	var n int
+
+	for _, specifiers := range [][]TemplateFieldSpecifier{tr.ScopeFieldSpecifiers, tr.FieldSpecifiers} {
+		for _, f := range specifiers {
+			n += int(f.Length)
+		}
+	}
+
+	return n
+}
+
 func (d *Decoder) decodeData(tr TemplateRecord) ([]DecodedField, error) {
 	var (
 		fields []DecodedField
@@ -435,8 +448,20 @@ func (d *Decoder) decodeSet(mem MemCache, msg *Message) error {
 		}
 	}
 
-	// the next set should be greater than 4 bytes otherwise that's padding
-	for err == nil && (int(setHeader.Length)-(d.reader.ReadCount()-startCount) > 4) && d.reader.Len() > 4 {
+	// A template record occupies at least four octets (template id and field count),
+	// a data record the sum of the field lengths its template describes.
+	minRecordLen := 4
+	if err == nil && setHeader.FlowSetID > 255 {
+		if minRecordLen = tr.recordLen(); minRecordLen == 0 {
+			err = nonfatalError(fmt.Errorf("%s netflow template id# %d describes empty records",
+				d.raddr.String(),
+				setHeader.FlowSetID,
+			))
+		}
+	}
+
+	// whatever is left of the set and is shorter than a record is padding
+	for err == nil && int(setHeader.Length)-(d.reader.ReadCount()-startCount) >= minRecordLen {
 		if setId := setHeader.FlowSetID; setId == 0 || setId == 1 {
 			// Template record or template option record
 			tr := TemplateRecord{}
@@ -448,7 +473,7 @@ func (d *Decoder) decodeSet(mem MemCache, msg *Message) error {
 			if err == nil {
 				mem.insert(tr.TemplateID, d.raddr, tr)
 			}
-		} else if setId >= 4 && setId <= 255 {
+		} else if setId >= 2 && setId <= 255 {
 			// Reserved set, do not read any records
 			break
 		} else {
